@@ -171,8 +171,43 @@ impl Property for C10 {
                 *s = format!("./{s}");
             }
         }
+        // a starting point spelled DIR/.. : it resolves to DIR's parent, is matched like any
+        // other entry and cannot be removed under that name (a diagnostic, false, non-zero)
+        let mut dotdot_through: Option<String> = None;
+        // (not under -L: there the tests look at the entry again through its path when its turn
+        // comes, and this path runs through DIR, which the walk has removed by then: the tree
+        // is no longer the one `-depth EXPR -print` saw, which is all the statement speaks of)
+        // (nor under -H, which treats the starting points themselves the same way)
+        if rng.chance(1, 12) && !follows_inside && follow_flag.as_deref() != Some("-H") {
+            // (in place of the plain spelling of the same directory: the same entries must not
+            // be reached through two starting points)
+            let k = rng.usize_below(roots.len());
+            let inner: Vec<String> = dirs_of(&spec)
+                .into_iter()
+                .filter(|d| d.matches('/').count() == 1 && d.starts_with(&format!("{}/", roots[k])) && !d.contains(crate::tree::RAW_SENTINEL))
+                .collect();
+            if !inner.is_empty() {
+                let d = rng.pick(&inner).clone();
+                starts[k] = format!("{d}/..");
+                dotdot_through = d.rsplit('/').next().map(|s| s.to_string());
+            }
+        }
+        // find runs with the first starting point as its working directory, reached as ../t
+        let cwd_in_tree = rng.chance(1, 12);
+        if cwd_in_tree {
+            for s in starts.iter_mut() {
+                *s = format!("../{}", s.trim_start_matches("./"));
+            }
+        }
         let mut tests = gen_stable_tests(rng);
-        if rng.chance(1, 8) {
+        if let Some(name) = &dotdot_through {
+            // DIR itself stays (every path of this starting point runs through it)
+            let mut t = vec!["!".to_string(), "-name".to_string(), name.clone()];
+            t.extend(tests);
+            tests = t;
+        }
+        if rng.chance(1, 8) && !starts.iter().any(|s| s.ends_with("/..")) {
+            // (a test that reads the entry's metadata through its path: same remark as above)
             tests.extend(["-perm".to_string(), "-u+r".to_string()]);
         }
         // failing removals
@@ -212,7 +247,10 @@ impl Property for C10 {
         }
         let mut find = FindScenario::new(spec, vec![]);
         find.gen_extras(rng, true);
-        find.starts_via_file = rng.chance(1, 10);
+        find.starts_via_file = rng.chance(1, 10) && !cwd_in_tree;
+        if cwd_in_tree {
+            find.cwd_sub = Some("t".into());
+        }
         find.mutations = mutations;
         find.record_delim = 0;
         Sc {
@@ -251,7 +289,19 @@ impl Property for C10 {
                 return;
             }
         }
-        let describe = |argv: &Vec<String>| format!("argv {:?} chmods {:?} mutations {:?}", argv, spec.chmods, sc.find.mutations);
+        // what relative paths on the command line (and in the output) are relative to
+        let (a_top, b_top) = (a.clone(), b.clone());
+        let (a, b) = match &sc.find.cwd_sub {
+            Some(sub) => {
+                rep.probe("working_directory_inside_the_tree_it_deletes");
+                (a.join(sub), b.join(sub))
+            }
+            None => (a, b),
+        };
+        if sc.starts.iter().any(|s| s.ends_with("/..")) {
+            rep.probe("starting_point_spelled_dir_dotdot");
+        }
+        let describe = |argv: &Vec<String>| format!("argv {:?} cwd {:?} chmods {:?} mutations {:?}", argv, sc.find.cwd_sub, spec.chmods, sc.find.mutations);
         // independent post-order, to compare with pass 1's order
         let wcfg = WalkCfg {
             follow: sc.follow(),
@@ -269,8 +319,9 @@ impl Property for C10 {
         p1.extras_pre = sc.find.extras_pre.clone();
         p1.extras_global = sc.find.extras_global.clone();
         p1.starts_via_file = sc.find.starts_via_file;
+        p1.cwd_sub = sc.find.cwd_sub.clone();
         p1.record_delim = 0;
-        let o1 = run_find_prebuilt(&p1, ctx, a.clone());
+        let o1 = run_find_prebuilt(&p1, ctx, a_top.clone());
         rep.executions += 1;
         if let RunStatus::Panic(msg) = &o1.status {
             rep.fail("C10.panic", format!("{}: find panicked: {msg}", describe(&p1.argv)));
@@ -352,7 +403,8 @@ impl Property for C10 {
             let followed: Vec<String> = if sc.follow() == FollowMode::L {
                 spec.nodes.iter().filter_map(|n| if let Node::Symlink { path, .. } = n { Some(path.clone()) } else { None }).collect()
             } else {
-                sc.starts.iter().map(|s| s.trim_start_matches("./").to_string()).collect()
+                // (as specified paths, i.e. relative to the directory the tree stands in)
+                sc.starts.iter().map(|s| s.trim_start_matches("../").trim_start_matches("./").to_string()).collect()
             };
             for l in &followed {
                 if interfering {
@@ -362,14 +414,14 @@ impl Property for C10 {
                 let disk = tree::disk_bytes(spec.raw_byte, l);
                 let lp = {
                     use std::os::unix::ffi::OsStringExt;
-                    a.join(std::ffi::OsString::from_vec(disk.clone()))
+                    a_top.join(std::ffi::OsString::from_vec(disk.clone()))
                 };
                 let shown = String::from_utf8_lossy(&disk).into_owned();
                 let Ok(t) = fs::canonicalize(&lp) else { continue };
                 if !fs::symlink_metadata(&lp).map(|m| m.file_type().is_symlink()).unwrap_or(false) {
                     continue;
                 }
-                let l_shown: Vec<String> = vec![shown.clone(), format!("./{shown}")];
+                let l_shown: Vec<String> = vec![shown.clone(), format!("./{shown}"), format!("../{shown}")];
                 for (p, id) in pass1.iter().zip(&ids) {
                     let through_l = l_shown.iter().any(|ls| p == ls || p.starts_with(&format!("{ls}/")));
                     if !through_l && (id == &t || id.starts_with(&t)) {
@@ -403,7 +455,7 @@ impl Property for C10 {
                 }
             }
         }
-        let o2 = run_find_prebuilt(&p2, ctx, a.clone());
+        let o2 = run_find_prebuilt(&p2, ctx, a_top.clone());
         rep.executions += 1;
         account_find(&o2, rep);
         if let RunStatus::Panic(msg) = &o2.status {
@@ -433,22 +485,27 @@ impl Property for C10 {
             }
         }
         // ---- the reference executor on B
+        // (from the same working directory, with the same relative names: a working directory
+        // that has been removed still resolves `..`, an absolute path through it does not)
         let mut ref_ok: Vec<bool> = vec![];
+        let _ = std::env::set_current_dir(&b);
+        let here = std::path::PathBuf::from(".");
         for (j, p) in pass1.iter().enumerate() {
             for m in &p2.mutations {
                 if m.at == When::AfterRecord(j) {
                     let _ = match m.op {
-                        MutOp::Create => fs::write(b.join(&m.path), b"").is_ok(),
-                        MutOp::Unlink => fs::remove_file(b.join(&m.path)).is_ok(),
+                        MutOp::Create => fs::write(here.join(&m.path), b"").is_ok(),
+                        MutOp::Unlink => fs::remove_file(here.join(&m.path)).is_ok(),
                         _ => false,
                     };
                 }
             }
-            ref_ok.push(ref_delete(&b, spec.raw_byte, p));
+            ref_ok.push(ref_delete(&here, spec.raw_byte, p));
             if sc.quit_on_failure && !*ref_ok.last().unwrap() {
                 break;
             }
         }
+        let _ = std::env::set_current_dir(&ctx.scratch);
         for ok in &ref_ok {
             rep.trace.byte(if *ok { 21 } else { 22 });
         }
@@ -511,8 +568,8 @@ impl Property for C10 {
             }
         }
         // (c) the two sandboxes are identical afterwards: nothing else changed
-        let sa = tree::snapshot(&a);
-        let sb = tree::snapshot(&b);
+        let sa = tree::snapshot(&a_top);
+        let sb = tree::snapshot(&b_top);
         if sa != sb {
             let mut diff = vec![];
             for (k, v) in &sa {
